@@ -1018,7 +1018,12 @@ theorem step_declare_erase {s : SeqState} {name : ChName} {chId : Nat} {init : O
               | none => simp only; rw [← eraseRaw_done, store_erase]
               | some qs =>
                 simp only at h ⊢
-                rw [targetCore_erase h, store_erase]
+                rw [Raw.orRollback_err] at h
+                have e1 := Raw.orRollback_ok (s := s) (by rw [Raw.orRollback_err]; exact h)
+                have e2 : (targetCore (erase (s.addChannel (SeqState.freshChan (.user u) chId cfg s.allQubits
+                    (!cfg.isLocal) 1 1))) qs (.user u)).orRollback (erase s) = _ :=
+                  Raw.orRollback_ok (by rw [Raw.orRollback_err, targetCore_erase h]; exact h)
+                rw [e1, e2, targetCore_erase h, store_erase]
 
 theorem step_configDetMap_erase {s : SeqState} {dmmId : Nat} {w1 w2 : Rat}
     (h : (stepRaw s (.configDetMap dmmId w1 w2)).err = none) :
